@@ -40,6 +40,9 @@ QJsonObject generate()
     c["func"] = genCtxString(60);
     c["line"] = chance(70) ? pick(0, 5000) : *rc::gen::arbitrary<int>();
     c["compact"] = chance(60);
+    // the message may already carry formatted text when it reaches this formatter (a flat pipeline `format(...)` followed by
+    // `formatToJson()`, a message passed through two formatters): "message" is the ORIGINAL text all the same
+    if (chance(25)) { StrOpts po; po.maxLen = 12; c["pre"] = strToJson(chance(30) ? QString("{\"message\":\"x\"}") : genString(po, &used)); }
     // how the formatter is obtained: constructed directly, through the fluent API (SimplePipeline::formatToJson) after another
     // pipeline of the same process asked for the OTHER mode, or the documented shared instance (indented)
     c["via"] = chance(35) ? "ctor" : chance(40) ? "reused" : (chance(75) ? "pipeline" : "instance");
@@ -87,6 +90,7 @@ std::string run(const QJsonObject &c)
     const QJsonArray attrs = c["attrs"].toArray();
     for (auto av : attrs)
         lm.setAttribute(strFromJson(av.toArray()[0]), toVariant(av.toArray()[1].toObject()));
+    if (c.contains("pre")) { lm.setFormattedMessage(strFromJson(c["pre"])); cls("message_already_formatted_by_an_earlier_formatter", true); }
 
     const QString via = c["via"].toString();
     QString out;
